@@ -34,9 +34,11 @@ func TestC12(t *testing.T) {
 }
 
 type plan struct {
-	Style  string         `json:"style"`
-	Read   simio.ReadPlan `json:"read"`
-	BufCap int            `json:"buf_cap"`
+	// ReaderKind: 0 plain io.Reader, 1 also io.WriterTo, 2 also io.ByteReader
+	ReaderKind int            `json:"reader_kind"`
+	Style      string         `json:"style"`
+	Read       simio.ReadPlan `json:"read"`
+	BufCap     int            `json:"buf_cap"`
 }
 
 var bufCaps = []int{0, 0, 1, 2, 3, 4, 8, 16, 64}
@@ -55,6 +57,7 @@ func drawPlan(t *rapid.T, doc []byte, delim byte) plan {
 	p := plan{}
 	p.BufCap = bufCaps[rapid.IntRange(0, len(bufCaps)-1).Draw(t, "bufcap")]
 	p.Read.EOFWithData = rapid.Bool().Draw(t, "eofwithdata")
+	p.ReaderKind = rapid.IntRange(0, 2).Draw(t, "readerkind")
 	ints := interesting(doc, delim)
 	style := rapid.IntRange(0, 6).Draw(t, "style")
 	if len(ints) == 0 && style >= 3 && style <= 5 {
@@ -169,7 +172,7 @@ func read(c *gen.CSVCase, p plan) (res result) {
 			res.panicky = fmt.Sprint(r)
 		}
 	}()
-	qf := qframe.ReadCSV(rd, confFuncs(c)...)
+	qf := qframe.ReadCSV(rd.As(p.ReaderKind), confFuncs(c)...)
 	res.fr = obs.Of(qf)
 	return res
 }
@@ -342,6 +345,23 @@ func runC12(t *rapid.T) {
 				return
 			}
 			seen[n] = true
+			if c.AliasTyped && names[i] == c.Alias {
+				// the declared type of the aliased column must have been honoured
+				if got.Types[i] != "string" {
+					core.Violation(t, "C12:R2:alias-type", fmt.Sprintf("column %q (the alias of a nameless column) is declared string, the frame has %s", n, got.Types[i]), tr)
+					return
+				}
+				for r, row := range c.Rows {
+					want := "s:" + strconv.Quote(row[i])
+					if row[i] == "" && c.EmptyNull {
+						want = "null"
+					}
+					if len(c.Names) > 1 && r < len(got.Cols[i]) && got.Cols[i][r] != want {
+						core.Violation(t, "C12:R2:cell", fmt.Sprintf("cell [%q,%d] is %s, document denotes %s", n, r, got.Cols[i][r], want), tr)
+						return
+					}
+				}
+			}
 			if first[names[i]] == i && n != names[i] {
 				core.Violation(t, "C12:R2:odd-header-untouched-name-changed", fmt.Sprintf("column %d: name %q, header says %q (first occurrence, must be kept)", i, n, names[i]), tr)
 				return
